@@ -262,6 +262,13 @@ def cases(ctx, with_ctcs, big):
     for n in range(1, top + 1):
         for t in gen.all_trees(n, "all" if n <= 3 else "kinds"):
             yield f"exh{n}", dict(root=t, ctcs=[])
+    # features whose names differ only in letter case, in relations of different kinds
+    F, R = spec.F, spec.R
+    yield "twins", dict(root=F("App", [R(1, 1, [F("log")]), R(0, 1, [F("Log")]),
+                                       R(0, 1, [F("Db", [R(1, 1, [F("db")]), R(0, 1, [F("DB")])])])]), ctcs=[])
+    yield "twins", dict(root=F("P", [R(1, 1, [F("Ab"), F("aB")]), R(0, 1, [F("AB")]), R(1, 1, [F("ab")])]), ctcs=[])
+    yield "twins", dict(root=F("P", [R(2, 2, [F("Ab", [R(1, 1, [F("x")])]), F("aB", [R(1, 1, [F("X")]), R(0, 1, [F("y")])])]),
+                                     R(0, 1, [F("AB"), F("ab")])]), ctcs=[])
     kinds = ("mandatory", "optional", "alternative", "or", "mutex", "card", "nn", "zero")
     nrand = 250 if tier == "quick" else 3000
     for i in range(nrand):
@@ -282,6 +289,14 @@ def cases(ctx, with_ctcs, big):
             for i in range(depth - 1, -1, -1):
                 f = spec.F(f"D{i}", [spec.R(1, 1, [f])] if i % 2 else [spec.R(0, 1, [f])])
             yield "deep", dict(root=f, ctcs=[])
+        # exact ties of round(children / branches, 2): branches a multiple of 8 (1.125, 1.625, 2.125, ...)
+        for b, extra in [(8, 1), (8, 5), (8, 9), (8, 3), (16, 2), (16, 10), (40, 5), (40, 25), (24, 3)]:
+            f = spec.F("L")
+            for i in range(b - 1, -1, -1):
+                f = spec.F(f"T{i}", [spec.R(1, 1, [f])])
+            f["rels"].append(spec.R(0, extra, [spec.F(f"x{j}") for j in range(extra)]) if extra > 1
+                             else spec.R(0, 1, [spec.F("x0")]))
+            yield "ties", dict(root=f, ctcs=[])
         for width in [50, 500]:
             yield "wide", dict(root=spec.F("W", [spec.R(1, width, [spec.F(f"w{i}") for i in range(width)])]), ctcs=[])
 
